@@ -9,18 +9,35 @@ package dnsdata
 //@ ensures ones >= 0 && ones <= bits && (bits == 0 || bits == 32 || bits == 128)
 //@ extern net IP.To16
 //@ pure
+// IPv6.Equal: byte-wise equality of the two 16-byte addresses.
+//@ func IPv6.Equal
+//@ pure
+//@ ensures[eq] result == forall(j, 0, 16, ip[j] == other[j])
+//@ loop 0 invariant 0 <= i && i <= 16 && forall(j, 0, i, ip[j] == other[j])
 //@ func IPv6.EqualToNetIP
 //@ trusted
 //@ pure
-//@ func IPv6.Equal
-//@ trusted
-//@ pure
+// ipCleanMask / ipFillUnmasked (C03: a subnet's first and last address): with base = the 16-byte form of the
+// address, the mask is applied to the LAST len(mask) bytes (a 4-byte mask to bytes 12..15), byte by byte: first
+// address = base AND mask, last address = base OR NOT mask; the bytes before are the base's.
 //@ func ipCleanMask
-//@ trusted
-//@ pure
+//@ flag skip frame
+//@ requires ipaddr != nil && mask != nil && (len(*mask) == 4 || len(*mask) == 16)
+//@ after copy#0 let base = result
+//@ ghostret b16 seq = base
+//@ ensures[masked] forall(j, 0, len(*mask), result[j + 16 - len(*mask)] == band(b16[j + 16 - len(*mask)], (*mask)[j]))
+//@ ensures[kept] forall(j, 0, 16 - len(*mask), result[j] == b16[j])
+//@ loop 0 invariant[done] 0 <= idx && idx <= len(*mask) && offset == 16 - len(*mask) && forall(j, 0, idx, result[j + offset] == band(base[j + offset], (*mask)[j]))
+//@ loop 0 invariant[rest] forall(j, 0, 16, (j < offset || j >= idx + offset) ==> result[j] == base[j])
 //@ func ipFillUnmasked
-//@ trusted
-//@ pure
+//@ flag skip frame
+//@ requires ipaddr != nil && mask != nil && (len(*mask) == 4 || len(*mask) == 16)
+//@ after copy#0 let base = result
+//@ ghostret b16 seq = base
+//@ ensures[filled] forall(j, 0, len(*mask), result[j + 16 - len(*mask)] == bor(b16[j + 16 - len(*mask)], bxor((*mask)[j], 255)))
+//@ ensures[kept] forall(j, 0, 16 - len(*mask), result[j] == b16[j])
+//@ loop 0 invariant[done] 0 <= idx && idx <= len(*mask) && offset == 16 - len(*mask) && forall(j, 0, idx, result[j + offset] == bor(base[j + offset], bxor((*mask)[j], 255)))
+//@ loop 0 invariant[rest] forall(j, 0, 16, (j < offset || j >= idx + offset) ==> result[j] == base[j])
 
 //@ func copyLocID
 //@ ensures[ok] err == nil <==> (locID != nil && len(locID) == 2)
@@ -32,7 +49,7 @@ package dnsdata
 //@ func Rearranger.AddLocation
 //@ flag skip frame
 //@ ghostret ones int = maskLen
-//@ requires ipnet != nil
+//@ requires ipnet != nil && (len(ipnet.Mask) == 4 || len(ipnet.Mask) == 16)
 //@ modifies r
 //@ ensures[badloc] err != nil ==> len(r.points) == old(len(r.points)) && r.hasDefaultIPv4Range == old(r.hasDefaultIPv4Range) && r.hasDefaultIPv6Range == old(r.hasDefaultIPv6Range)
 //@ ensures[default6] err == nil && r.hasDefaultIPv6Range && !old(r.hasDefaultIPv6Range) ==> ones == 0
